@@ -18,7 +18,8 @@ fn op(c: Code, a: u8, b: u8, cc: u8) -> Op {
 
 /// Family g3: objects #0,#1,#2 (built in v0,v1,v2; v3 is the carrier).
 ///   c0 of every object in {none, ->0, ->1, ->2}; c1 of #1 in {none, ->0, ->1, ->2}; untraced cell of #0 in {none, ->1, ->2};
-///   weak cell of #2 in {none, ->0, ->1} (if the lens has weak cells); finalizer script of #2 and destructor script of #0
+///   weak cell of #2 in {none, ->0, ->1} (if the lens has weak cells); with two weak variables also a program-held
+///   Weak to #0 or #1; finalizer script of #2 and destructor script of #0
 ///   from the lens menus; one cleaning action on #0 from the lens menu (if the lens has cleaners);
 ///   finally all handles but at most one are dropped, in both orders.
 pub fn generate(family: &str, cfg: &LensCfg) -> Vec<Vec<Op>> {
@@ -74,6 +75,13 @@ fn g3(cfg: &LensCfg, small: bool) -> Vec<Vec<Op>> {
                                         if let Some(k) = act {
                                             base.push(op(Register, 0, *k, 0));
                                         }
+                                        // (with >= 2 weak variables) a program-held Weak to #0 or #1 in w1
+                                        let held_weak: Vec<Option<u8>> = if weak && cfg.nw >= 2 { vec![None, Some(0), Some(1)] } else { vec![None] };
+                                        for hw in held_weak {
+                                        let mut base = base.clone();
+                                        if let Some(t) = hw {
+                                            base.push(op(Downgrade, t, 1, 0));
+                                        }
                                         // handles: keep none or exactly one, drop the others in both orders
                                         for keep in [None, Some(0u8), Some(1), Some(2)] {
                                             for rev in [false, true] {
@@ -87,6 +95,7 @@ fn g3(cfg: &LensCfg, small: bool) -> Vec<Vec<Op>> {
                                                 }
                                                 out.push(h);
                                             }
+                                        }
                                         }
                                     }
                                 }
